@@ -39,3 +39,4 @@ package notify
 //@   requires n != nil && unlocked(addr(n.mu))
 //@   modifies n.cc, lockstate(addr(n.mu)), bcasts(n)
 //@   ensures [C16.notify.broadcast] n.cc == nil && unlocked(addr(n.mu))
+//@   ensures lockstate(addr(n.mu)) == old(lockstate(addr(n.mu)))
